@@ -1,6 +1,9 @@
 -------------------------------------- MODULE SettingSchema_cat --------------------------------------
-(* SettingSchema evaluated over the catalog of the real settings (written by harness/gen_settings.py from the
-   declarations of the live Setting objects: default, options, enforcedOptions, constructor schema, class, old names).
+(* SettingSchema evaluated over the catalog of the real settings (written by harness/gen_settings.py from what the
+   framework and every plugin *declare* through defineSettings, before App.getSettings merges it: default, options,
+   enforcedOptions, constructor schema, class, old names, and the Option/Default modifiers other plugins contribute;
+   EffDecl merges them here, and the harness compares the declarations App.getSettings hands out with the merged ones
+   under both registration orders of the defining and the modifying plugin).
    One state per setting; for every candidate input of the setting one printed case
        [s, j, raw, r (ok | bad | unm), out (stored value), dump (written value), rt (value round-trip law)]
    and one line with the per-setting data laws and the rename table SettingRenamer derives.  The harness executes every
